@@ -22,7 +22,7 @@ from harness.core import q, coq_list, coq_bool, coq_opt
 PID = "C10"
 GEN_GROUPS = ["Evse", "EvseZ", "Battery"]
 TARGETS = ["coq/Props/C10.vo", "coq/Model/SimPerm.vo", "coq/Proofs/SimShift.vo"]
-CASES = {"quick": 360, "thorough": 3600}          # runs (6 per scenario)
+CASES = {"quick": 360, "thorough": 3600}          # runs (nine variants per scenario)
 CORR_HEADER = ("From Coq Require Import ZArith QArith List String.\n"
                "From ACN Require Import Base.Num Model.EVSE Model.SimPerm.\nImport ListNotations.\n"
                "Open Scope Q_scope.\n")
